@@ -2710,6 +2710,8 @@ LZ4_decompress_fast_continue (LZ4_streamDecode_t* LZ4_streamDecode,
         result = LZ4_decompress_fast_extDict(source, dest, originalSize,
                                              lz4sd->externalDict, lz4sd->extDictSize);
         if (result <= 0) return result;
+        if (originalSize == 0) return result;   /* empty block : history stays where it is
+                                                 * (prefixSize==0 would mean "first invocation") */
         lz4sd->prefixSize = (size_t)originalSize;
         lz4sd->prefixEnd  = (BYTE*)dest + originalSize;
     }
